@@ -65,6 +65,15 @@ FIXED = [
     ("C12", "C12/directory-lost:dangling-symlink:error-reply", "9218e4f",
      "one dangling symlink, FIFO, socket, a name containing '..' / '.\\' / '\\\\', a child that vanished or "
      "whose stat failed made the whole directory answer not-found"),
+    ("C13", "C13/markup-injected:gophermap-description-and-selector:http", "2edb5f2",
+     "gophermap / link-file entry 'hEvil<TAB>URL:http://x/\"><script>' (or a remote host name with quotes) was written "
+     "unescaped into HREF=\"...\" by the HTTP and WAP renderers"),
+    ("C16", "C16/real-file-handler-acted-on-member:open", "741e763",
+     "mailbox/Maildir/script/PYG members of an archive: isinstance(vfs, VFS_Real) is true for VFSZip; mbox('mail.mbox') "
+     "opened and Maildir('md') created relative to the working directory (also C01)"),
+    ("C16", "C16/nested-archive-probed-in-working-directory", "2d601e8",
+     "ZIP member inner.zip: zipfile.is_zipfile('inner.zip') and the index cache were evaluated relative to the working "
+     "directory; reply depended on files outside the root, cache files created there (also C01)"),
 ]
 
 KNOWN = [
